@@ -42,6 +42,8 @@ trait DynStore {
     fn bs_ref(&self) -> &dyn BlobStore;
     fn has_batch(&self) -> bool { false }
     fn put_batch_dyn(&mut self, _recs: Vec<Vec<u8>>) -> ZResult<Vec<RecordId>> { unreachable!() }
+    fn remove_batch_dyn(&mut self, _ids: Vec<RecordId>) -> ZResult<usize> { unreachable!() }
+    fn get_batch_dyn(&self, _ids: Vec<RecordId>) -> ZResult<Vec<Option<Vec<u8>>>> { unreachable!() }
     /// save -> load (or close -> reopen); None = the store type has no such operation
     fn reopen(self: Box<Self>) -> Result<Box<dyn DynStore>, String>;
     fn can_reopen(&self) -> bool { false }
@@ -70,9 +72,11 @@ impl BatchBlobStore for B {
         }
     }
     fn get_batch<I: IntoIterator<Item = RecordId>>(&self, ids: I) -> ZResult<Vec<Option<Vec<u8>>>> {
+        if self.0.has_batch() { return self.0.get_batch_dyn(ids.into_iter().collect()); }
         Ok(ids.into_iter().map(|id| self.0.bs_ref().get(id).ok()).collect())
     }
     fn remove_batch<I: IntoIterator<Item = RecordId>>(&mut self, ids: I) -> ZResult<usize> {
+        if self.0.has_batch() { return self.0.remove_batch_dyn(ids.into_iter().collect()); }
         let mut n = 0;
         for id in ids { if self.0.bs().remove(id).is_ok() { n += 1; } }
         Ok(n)
@@ -86,6 +90,8 @@ macro_rules! dyn_store {
             fn bs_ref(&self) -> &dyn BlobStore { self }
             fn has_batch(&self) -> bool { true }
             fn put_batch_dyn(&mut self, recs: Vec<Vec<u8>>) -> ZResult<Vec<RecordId>> { self.put_batch(recs) }
+            fn remove_batch_dyn(&mut self, ids: Vec<RecordId>) -> ZResult<usize> { self.remove_batch(ids) }
+            fn get_batch_dyn(&self, ids: Vec<RecordId>) -> ZResult<Vec<Option<Vec<u8>>>> { self.get_batch(ids) }
             fn reopen(self: Box<Self>) -> Result<Box<dyn DynStore>, String> { Err("no reopen".into()) }
         }
     };
@@ -111,6 +117,8 @@ impl DynStore for MemoryBlobStore {
     fn bs_ref(&self) -> &dyn BlobStore { self }
     fn has_batch(&self) -> bool { true }
     fn put_batch_dyn(&mut self, recs: Vec<Vec<u8>>) -> ZResult<Vec<RecordId>> { self.put_batch(recs) }
+    fn remove_batch_dyn(&mut self, ids: Vec<RecordId>) -> ZResult<usize> { self.remove_batch(ids) }
+    fn get_batch_dyn(&self, ids: Vec<RecordId>) -> ZResult<Vec<Option<Vec<u8>>>> { self.get_batch(ids) }
     fn can_reopen(&self) -> bool { true }
     fn reopen(self: Box<Self>) -> Result<Box<dyn DynStore>, String> {
         // the serde image is the store's "saved to bytes" form
@@ -124,6 +132,8 @@ impl DynStore for PlainBlobStore {
     fn bs_ref(&self) -> &dyn BlobStore { self }
     fn has_batch(&self) -> bool { true }
     fn put_batch_dyn(&mut self, recs: Vec<Vec<u8>>) -> ZResult<Vec<RecordId>> { self.put_batch(recs) }
+    fn remove_batch_dyn(&mut self, ids: Vec<RecordId>) -> ZResult<usize> { self.remove_batch(ids) }
+    fn get_batch_dyn(&self, ids: Vec<RecordId>) -> ZResult<Vec<Option<Vec<u8>>>> { self.get_batch(ids) }
     fn can_reopen(&self) -> bool { true }
     fn reopen(self: Box<Self>) -> Result<Box<dyn DynStore>, String> {
         let dir = self.base_dir().to_path_buf();
@@ -370,6 +380,55 @@ fn run_history(cx: &mut Ctx, case: &Value, force_coq: bool) {
                 }
                 coq_ops.push(format!("MRemove {}", id));
             }
+            "rmb" => {
+                // remove_batch: every listed live id is gone afterwards and the count says how many were removed
+                let ids: Vec<RecordId> = op[1].as_array().map(|a| a.iter().map(|x| resolve(x, &issued)).collect()).unwrap_or_default();
+                if !st.has_batch() || !supports_remove(&spec) {
+                    for &id in &ids { if st.bs().remove(id).is_ok() { shadow.remove(&id); } }
+                    coq_ok = false;
+                } else {
+                    let mut distinct_live: Vec<RecordId> = ids.iter().copied().filter(|i| shadow.contains_key(i)).collect();
+                    distinct_live.sort(); distinct_live.dedup();
+                    let idc = ids.clone();
+                    match guarded(|| st.remove_batch_dyn(idc)) {
+                        Err(p) => { failure = fail(format!("remove_batch panicked: {}", p)); break 'ops; }
+                        Ok(Ok(n)) => {
+                            if n != distinct_live.len() { failure = fail(format!("remove_batch({:?}) reported {} removed records but {} of the ids were live", ids, n, distinct_live.len())); break 'ops; }
+                            for id in &ids { obs.push(if shadow.remove(id).is_some() { "[1]%N".into() } else { "[0]%N".into() }); coq_ops.push(format!("MRemove {}", id)); }
+                        }
+                        Ok(Err(e)) => {
+                            if distinct_live.len() == ids.len() { failure = fail(format!("remove_batch({:?}) of live records failed: {}", ids, e)); break 'ops; }
+                            // an error because some id was absent: whatever was removed must be consistently gone
+                            coq_ok = false;
+                            for id in &distinct_live { if !st.bs_ref().contains(*id) { shadow.remove(id); } }
+                        }
+                    }
+                    cx.sum.dist("remove_batch_ops");
+                    for &id in &ids { if let Some(m) = probe(st.bs_ref(), id, &shadow) { failure = fail(format!("after remove_batch: {}", m)); break 'ops; } }
+                }
+            }
+            "getb" => {
+                let ids: Vec<RecordId> = op[1].as_array().map(|a| a.iter().map(|x| resolve(x, &issued)).collect()).unwrap_or_default();
+                if st.has_batch() {
+                    let idc = ids.clone();
+                    match guarded(|| st.get_batch_dyn(idc)) {
+                        Err(p) => { failure = fail(format!("get_batch panicked: {}", p)); break 'ops; }
+                        Ok(Err(e)) => { if ids.iter().all(|i| shadow.contains_key(i)) { failure = fail(format!("get_batch({:?}) of live records failed: {}", ids, e)); break 'ops; } }
+                        Ok(Ok(v)) => {
+                            if v.len() != ids.len() { failure = fail(format!("get_batch of {} ids returned {} answers", ids.len(), v.len())); break 'ops; }
+                            for (id, g) in ids.iter().zip(v.iter()) {
+                                if g.as_ref() != shadow.get(id) { failure = fail(format!("get_batch: id {} answered {:?} but the shadow holds {:?}", id, g.as_ref().map(|d| hex(d)), shadow.get(id).map(|d| hex(d)))); break 'ops; }
+                            }
+                        }
+                    }
+                    cx.sum.dist("get_batch_ops");
+                }
+                for &id in &ids {
+                    if let Some(m) = probe(st.bs_ref(), id, &shadow) { failure = fail(m); break 'ops; }
+                    coq_ops.push(format!("MQuery {}", id));
+                    obs.push(match shadow.get(&id) { Some(d) => { let mut v = vec![1u128, d.len() as u128]; v.extend(d.iter().map(|&b| b as u128)); coq_n_list(v) } None => "[0]%N".into() });
+                }
+            }
             "get" | "has" | "size" => {
                 let id = resolve(&op[1], &issued);
                 if let Some(m) = probe(st.bs_ref(), id, &shadow) { failure = fail(m); break 'ops; }
@@ -456,8 +515,10 @@ fn gen_history_sized(r: &mut Rng, spec: &str, max_ops: u64, small: bool) -> Valu
         match r.below(100) {
             0..=34 => { let rec = if zero && r.chance(5, 6) { json!([0, 0, 0]) } else { gen_rec(r, common) }; ops.push(json!(["put", rec])); issued += 1; }
             35..=42 => { let k = r.range(0, 5); let recs: Vec<Value> = (0..k).map(|_| if zero { json!([0, 0, 0]) } else { gen_rec(r, common) }).collect(); issued += k as usize; ops.push(json!(["batch", recs])); }
-            43..=59 => ops.push(json!(["rm", gen_idref(r, issued)])),
-            60..=79 => ops.push(json!(["get", gen_idref(r, issued)])),
+            43..=55 => ops.push(json!(["rm", gen_idref(r, issued)])),
+            56..=59 => { let k = r.range(0, 4); let ids: Vec<Value> = (0..k).map(|_| gen_idref(r, issued)).collect(); ops.push(json!(["rmb", ids])); }
+            60..=75 => ops.push(json!(["get", gen_idref(r, issued)])),
+            76..=79 => { let k = r.range(0, 4); let ids: Vec<Value> = (0..k).map(|_| gen_idref(r, issued)).collect(); ops.push(json!(["getb", ids])); }
             80..=85 => ops.push(json!(["has", gen_idref(r, issued)])),
             86..=91 => ops.push(json!(["size", gen_idref(r, issued)])),
             92..=96 => ops.push(json!(["len"])),
